@@ -4,7 +4,7 @@ from checks import c01
 
 FUNCTIONS = c01.FUNCTIONS
 BOUNDS = {
-    'quick': 'k in {2,3}; n = 1 (4 tags, unary rules), n = 2 (2 tags per word; G5, G5r, G4 with duplicate results), n = 3 with one admitted tag per word (G1, GU: 2 derivations); n = 3 with two tags on the middle word (G9r, head-final, 3 derivations, k = 2; the cells no derivation uses and the unambiguous words' tag scores held at stated constants); all scores solver variables; per path: count = min(k, #derivations), trees pairwise different, scores non-increasing, every derivation not returned scores <= the last returned one, first result optimal',
+    'quick': 'k in {2,3}; n = 1 (4 tags, unary rules), n = 2 (2 tags per word; G5, G5r, G4 with duplicate results), n = 3 with one admitted tag per word (G1, GU: 2 derivations); n = 3 with two tags on the middle word (G9r, head-final, 3 derivations, k = 2; the cells no derivation uses and the tag scores of the unambiguous words held at stated constants); all scores solver variables; per path: count = min(k, #derivations), trees pairwise different, scores non-increasing, every derivation not returned scores <= the last returned one, first result optimal',
     'thorough': 'adds n = 3 with G3c/unary, k = 3 on GU n = 4 (5 derivations)',
 }
 OUTSIDE = c01.OUTSIDE + '; k > 3'
